@@ -33,9 +33,10 @@ def field_reaches_sink(fn, field_suffix, sink_rx, arg_index=None):
     return False
 
 
-def source_reaches_field(fn, source_rx, field_suffix):
+def source_reaches_field(fn, source_rx, field_suffix, fx=None):
     """does data produced by a call matching source_rx (incl. buffers it fills) reach a store into /
-    a mutating call on self.<field>?"""
+    a mutating call on self.<field>? With fx, a crate-local helper that receives the data and stores its parameter
+    into the field (two levels) counts."""
     rx = re.compile(source_rx)
     srcs = set()
     for b, c in fn.calls():
@@ -44,10 +45,33 @@ def source_reaches_field(fn, source_rx, field_suffix):
             for a in c["a"]:
                 l = op_local(a)
                 if l is not None:
-                    srcs |= set(fn.points_to(l))
+                    srcs |= _buffer_roots(fn, l)
     if not srcs:
         return False
-    fw = fn.forward_locals(srcs, call_through=content_thru)
+    return _locals_reach_field(fn, srcs, field_suffix, fx, 0)
+
+
+def _buffer_roots(fn, l, depth=0):
+    """the storage a `&mut [u8]` argument points into, through reborrows and deref_mut / index_mut / as_mut_slice calls"""
+    out = set(fn.points_to(l))
+    if depth > 6:
+        return out
+    for loc, kind, pl in fn.defs(l):
+        if kind == "assign":
+            rv = pl[2]
+            if rv[0] == "use" and op_local(rv[1]) is not None:
+                out |= _buffer_roots(fn, op_local(rv[1]), depth + 1)
+            elif rv[0] in ("ref", "refmut") and rv[1] and rv[1][0] != l:
+                out |= _buffer_roots(fn, rv[1][0], depth + 1) | ({rv[1][0]} if len(rv[1]) == 1 else set())
+        elif kind == "call" and pl["a"] and pl["f"].rsplit("::", 1)[-1] in ("deref_mut", "index_mut", "as_mut_slice", "as_mut", "borrow_mut"):
+            a0 = op_local(pl["a"][0])
+            if a0 is not None:
+                out |= _buffer_roots(fn, a0, depth + 1)
+    return out
+
+
+def _locals_reach_field(fn, srcs, field_suffix, fx, depth):
+    fw = fn.forward_locals(srcs, call_through=content_thru) | set(srcs)
     for loc, st in fn.iter_locs():
         if st[0] == "a":
             dst = st[1]
@@ -73,6 +97,13 @@ def source_reaches_field(fn, source_rx, field_suffix):
                                     recv_is_field = True
                     if recv_is_field and any(op_local(a) in fw for a in c["a"][1:]):
                         return True
+            if fx is not None and depth < 2 and fx.has(c["f"]) and \
+                    (fx.raw(c["f"])["self_ty"] or "").split("<")[0].endswith(field_suffix.rsplit("::", 1)[0]):
+                # a method of the same struct that is handed the data (not as its receiver) and stores it into the field
+                params = [i + 1 for i, a in enumerate(c["a"]) if i > 0 and op_local(a) is not None and
+                          (op_local(a) in fw or any(x in fw for x in fn.points_to(op_local(a))))]
+                if params and _locals_reach_field(Fn(fx.raw(c["f"])), params, field_suffix, fx, depth + 1):
+                    return True
     return False
 
 
